@@ -408,6 +408,27 @@ func (r *chunkReader) Read(p []byte) (int, error) {
 	return n, nil
 }
 
+type reentrantWriter struct {
+	buf     bytes.Buffer
+	par     bool
+	changed string
+}
+
+func (w *reentrantWriter) Write(p []byte) (int, error) {
+	before := append([]byte{}, p...)
+	var wg sync.WaitGroup
+	if w.par {
+		wg.Add(1)
+		go func() { defer wg.Done(); churn(1) }()
+	}
+	churn(1)
+	wg.Wait()
+	if !bytes.Equal(p, before) && w.changed == "" {
+		w.changed = fmt.Sprintf("the %d bytes passed to Write changed while Write was using the package: now %q", len(p), trunc(p))
+	}
+	return w.buf.Write(p)
+}
+
 var churnVals = []any{
 	map[string]any{"a": strings.Repeat("x", 5000), "b": []any{1.5, "y", nil}},
 	strings.Repeat("é<>&", 1200),
@@ -547,8 +568,13 @@ func (w *world) apply(op Op) (f *evid.Failure) {
 			}
 		}
 	case "encoder":
-		var buf bytes.Buffer
-		e := segjson.NewEncoder(&buf)
+		// the bytes handed to Write belong to the writer until Write returns: this writer uses the package
+		// itself (and, with Par, lets another goroutine do so) before it consumes them
+		rw := &reentrantWriter{par: op.Par}
+		e := segjson.NewEncoder(rw)
+		if op.N%3 == 1 {
+			e.SetIndent("", " ")
+		}
 		for _, doc := range op.Docs {
 			var x any
 			if stdjson.Unmarshal(doc, &x) != nil {
@@ -556,7 +582,10 @@ func (w *world) apply(op Op) (f *evid.Failure) {
 			}
 			e.Encode(x)
 		}
-		w.keep("Encoder output", buf.Bytes(), false, -1)
+		if rw.changed != "" {
+			return fail("memory handed to a writer keeps its contents until Write returns", rw.changed, "unchanged during Write", "write-buffer-changed")
+		}
+		w.keep("Encoder output", rw.buf.Bytes(), false, -1)
 	case "append":
 		for _, doc := range op.Docs {
 			var x any
@@ -677,7 +706,9 @@ func TestHistories(t *testing.T) {
 			},
 			"tokenizer": func(rt *rapid.T) { step(Op{Kind: "tokenizer", Docs: genDocs(rt, 0)}) },
 			"marshal":   func(rt *rapid.T) { step(Op{Kind: "marshal", Docs: genDocs(rt, 1)}) },
-			"encoder":   func(rt *rapid.T) { step(Op{Kind: "encoder", Docs: genDocs(rt, 1)}) },
+			"encoder": func(rt *rapid.T) {
+				step(Op{Kind: "encoder", Docs: genDocs(rt, 1), N: rapid.IntRange(0, 5).Draw(rt, "encn"), Par: rapid.Bool().Draw(rt, "encpar")})
+			},
 			"append": func(rt *rapid.T) {
 				step(Op{Kind: "append", Docs: genDocs(rt, 1), Flags: uint32(rapid.IntRange(0, 7).Draw(rt, "aflags")), N: rapid.IntRange(0, 200).Draw(rt, "cap")})
 			},
